@@ -519,6 +519,9 @@ func history(run, steps, conc int, seed int64) ([]map[string]any, error) {
 					size = 10
 				}
 				body = []byte(fmt.Sprintf("<<P%d>>%s", next, bytes.Repeat([]byte{byte('A' + next%26)}, size)))
+				if next%3 == 0 {
+					body = append(body, []byte(" 100% done %d %s %!")...) // text that a format function would mangle
+				}
 				if rng.Intn(4) == 0 {
 					body = append(body, '\n', 'x')
 				}
